@@ -421,6 +421,112 @@ def oracleAuth (c : CaseIn) (chunks : List Bytes) (rkv : KV) : Option String :=
          | none => false)) then some "C01:wrong-password-not-reported-with-class-28"
     else none
 
+/-- substring between `open` and the next `close` in `s` (first occurrence) -/
+def between (s : String) (opn cls : String) : Option String :=
+  match s.splitOn opn with
+  | _ :: rest :: _ => (rest.splitOn cls).head?
+  | _ => none
+
+/-- C12 oracle: what the handler saw as client/server parameters, the ParameterStatus set on
+    the wire, one ReadyForQuery before the first command, the user's map untouched -/
+def oracleStartup (c : CaseIn) (chunks : List Bytes) (rkv : KV) : Option String :=
+  let evs := ((get rkv "ev").splitOn ";").filter (· ≠ "")
+  let want (k : String) : Option String := (c.kv.lookup k).map fun v => (v.drop 1).toString
+  let frames := implFrames chunks
+  if get rkv "umap" ≠ "same" then some "C12:user-supplied-parameter-map-modified"
+  else if (c.kv.lookup "xnoev").isSome ∧ !evs.isEmpty then some ("C12:callback-after-cancel-or-bad-packet:" ++ (get rkv "ev").take 40)
+  else
+    let pev := evs.find? (·.startsWith "P:")
+    let chkCtx : Option String := match want "xcp", want "xsp", pev with
+      | some wc, some ws, some e =>
+        let gc := (between e "@c[" "]").getD "?"
+        let gs := (between e "]s[" "]").getD "?"
+        if gc ≠ wc then some ("C12:client-params:got=" ++ gc ++ ":want=" ++ wc)
+        else if gs ≠ ws then some ("C12:server-params-in-context:got=" ++ gs ++ ":want=" ++ ws)
+        else none
+      | some _, some _, none => some "C12:no-parse-callback"
+      | _, _, _ => none
+    let chkWire : Option String := match want "xsp" with
+      | none => none
+      | some ws =>
+        let ss := frames.filterMap fun (t, b) => if t = ch 'S' then
+            (match cstr b with | some (k, r) => (match cstr r with | some (v, _) => some (hexOf k ++ "=" ++ hexOf v) | none => none) | none => none)
+          else none
+        -- sort the k=v strings (keys are distinct hex strings of equal alphabet: plain string order)
+        let sorted := ss.toArray.qsort (· < ·) |>.toList
+        let g := ",".intercalate sorted
+        if g = ws then none else some ("C12:ParameterStatus-set:got=" ++ g ++ ":want=" ++ ws)
+    chkCtx.orElse fun _ => chkWire
+
+/-- C19 oracle -/
+def oracleLifecycle (c : CaseIn) (chunks : List Bytes) (rkv : KV) : Option String :=
+  let evs := ((get rkv "ev").splitOn ";").filter (· ≠ "")
+  let want (k : String) : Option String := (c.kv.lookup k).map fun v => (v.drop 1).toString
+  let frames := implFrames chunks
+  let mws := evs.filter (·.startsWith "M")
+  let cbs := evs.filter fun e => e.startsWith "P:" ∨ e.startsWith "X:"
+  let chkMw : Option String := match want "xmw" with
+    | some w => if ";".intercalate mws = w then none else some ("C19:middleware-order:got=" ++ ";".intercalate mws ++ ":want=" ++ w)
+    | none => none
+  let chkOnly : Option String :=
+    if (c.kv.lookup "xonlymw").isSome ∧ evs.length ≠ mws.length then some "C19:callback-after-middleware-failure" else none
+  let chkNoZ : Option String :=
+    if (c.kv.lookup "xnoZ").isSome ∧ frames.any (·.1 = ch 'Z') then some "C19:ReadyForQuery-after-middleware-failure" else none
+  -- middlewares run before the first ReadyForQuery: all M events precede every P/X event
+  let firstCb := evs.findIdx? fun e => e.startsWith "P:" ∨ e.startsWith "X:"
+  let lastMw := (evs.reverse.findIdx? (·.startsWith "M")).map fun i => evs.length - 1 - i
+  let chkBefore : Option String := match firstCb, lastMw with
+    | some f, some l => if l < f then none else some "C19:middleware-after-first-command"
+    | _, _ => none
+  let chkMarks : Option String := match want "xmarks" with
+    | none => none
+    | some w => cbs.findSome? fun e =>
+        let m := (between e "]m" "r").getD "?"
+        if m ≠ w then some ("C19:context-chain:got=" ++ m ++ ":want=" ++ w)
+        else if !(e.endsWith "r1t1a1") then some ("C19:context-values:" ++ (e.takeEnd 8).toString)
+        else none
+  let chkN : Option String := match c.kv.lookup "xncb" with
+    | some n => if toString (evs.countP (·.startsWith "P:")) = n then none else some ("C19:parser-calls:" ++ toString (evs.countP (·.startsWith "P:")) ++ "/" ++ n)
+    | none => none
+  let chkTerm : Option String := match c.kv.lookup "xterm" with
+    | some n => if toString (evs.countP (· = "T")) = n then none else some ("C19:terminate-hook-calls:" ++ toString (evs.countP (· = "T")) ++ "/" ++ n)
+    | none => none
+  -- per-command contexts: every captured callback context is cancelled once its command ended
+  let dn := get rkv "dn"
+  let chkDone : Option String := if dn.toList.all (· = '1') then none else some ("C19:command-context-not-cancelled:" ++ dn)
+  chkMw.orElse fun _ => chkOnly.orElse fun _ => chkNoZ.orElse fun _ => chkBefore.orElse fun _ =>
+  chkMarks.orElse fun _ => chkN.orElse fun _ => chkTerm.orElse fun _ => chkDone
+
+/-- multi-connection cases: every connection is compared with the model of the same client
+    traffic served ALONE (C15), and must see its own user in its server parameters (C12) -/
+def runMultiModel (c : CaseIn) : ModelOut :=
+  let ins := (get c.kv "min").splitOn "/"
+  let rs := ins.map fun hx =>
+    let inp := (unhex hx).getD []
+    (runModel { c with inp := inp }).1
+  { out := "/".intercalate (rs.map (·.out)), ev := "/".intercalate (rs.map (·.ev)),
+    ending := "/".intercalate (rs.map (·.ending)), unsup := rs.any (·.unsup), stuffed := false }
+
+def oracleMulti (c : CaseIn) (rkv : KV) : Option String :=
+  let ins := (get c.kv "min").splitOn "/"
+  let evs := (get rkv "ev").splitOn "/"
+  if get rkv "umap" ≠ "same" then some "C12:user-supplied-parameter-map-modified"
+  else if get rkv "retain" ≠ "ok" then some ("C18:retained-data-" ++ get rkv "retain")
+  else (ins.zip evs).findSome? fun (hx, ev) =>
+    let inp := (unhex hx).getD []
+    match rd32 inp with
+    | none => none
+    | some (n0, _) =>
+      let body := (inp.take n0).drop 8
+      let cp := (readClientParams (body.length + 1) body []).getD []
+      let user := (lookup (ascii "user") cp).getD []
+      let want := hexOf (ascii "session_authorization") ++ "=" ++ hexOf user
+      ((ev.splitOn ";").filter fun e => e.startsWith "P:" ∨ e.startsWith "X:").findSome? fun e =>
+        match between e "]s[" "]" with
+        | some sp => if (sp.splitOn ",").contains want then none
+                     else some ("C12:per-connection-value-leaked:want=" ++ want ++ ":got=" ++ sp)
+        | none => none
+
 def oracle (c : CaseIn) (chunks : List Bytes) (rkv : KV) : Option String :=
   if c.camp = "errors" then oracleErrors c chunks
   else if c.camp = "params" then oracleParams c rkv
@@ -430,6 +536,9 @@ def oracle (c : CaseIn) (chunks : List Bytes) (rkv : KV) : Option String :=
   else if c.camp = "simple" then oracleSimple c chunks rkv
   else if c.camp = "ext" then oracleExt c chunks rkv
   else if c.camp = "auth" then oracleAuth c chunks rkv
+  else if c.camp = "multi" then oracleMulti c rkv
+  else if c.camp = "startup" then (oracleStartup c chunks rkv).orElse fun _ => oracleExpect c chunks rkv
+  else if c.camp = "lifecycle" then (oracleLifecycle c chunks rkv).orElse fun _ => oracleExpect c chunks rkv
   else oracleExpect c chunks rkv
 
 def processLine (line : String) : String :=
@@ -439,7 +548,8 @@ def processLine (line : String) : String :=
     let rkv := parseKV rs
     let c := parseCase ckv
     let direct := get ckv "direct"
-    let m := if direct.isEmpty then (runModel c).1 else runDirect c direct
+    let m := if !(get ckv "conns").isEmpty then runMultiModel c
+             else if direct.isEmpty then (runModel c).1 else runDirect c direct
     let iout := get rkv "out"
     let iev0 := get rkv "ev"
     let iev := if get ckv "evat" = "1" then
